@@ -1,4 +1,5 @@
 CONSTANTS MaxChain = 3
+  Slim = FALSE
   Prefixes <- PrefixesDef
 INIT Init
 NEXT Next
